@@ -298,14 +298,14 @@ def fix_params(mcls, params):
 
 
 def gen_amap(rng, U):
-    """a catalogue mapping with a random parameter set - numeric, or (one case in four) with some or all parameters left
+    """a catalogue mapping with a random parameter set - numeric, or (one case in seven) with some or all parameters left
     symbolic, so that the mapping has `constants` - applied to a square"""
     mname = rng.choice(POOLS['mapping'])
 
     def gen():
         mcls = rng.choice(['AffineMapping', 'AffineMapping', 'PolarMapping', 'PolarMapping', 'TargetMapping'])
         params = {k: rng.choice(v) for k, v in sorted(CATALOGUE[mcls].items())}
-        if rng.random() < 0.25:
+        if rng.random() < 0.15:
             keys = sorted(params)
             for k in (keys if rng.random() < 0.4 else rng.sample(keys, rng.randint(1, len(keys)))):
                 del params[k]
@@ -316,7 +316,7 @@ def gen_amap(rng, U):
     sp = U.space(False, d)
     p = {'mcls': mcls, 'mname': mname, 'params': params, 'dom': d, 'sp': sp,
          'fn': U.fn(False, sp, d), 'op': rng.choice(['dx', 'dx', 'dy'])}
-    if len(params) < len(CATALOGUE[mcls]) and (mcls != 'AffineMapping' or rng.random() < 0.5):
+    if len(params) < len(CATALOGUE[mcls]) and (mcls != 'AffineMapping' or rng.random() < 0.7):
         p['lower'] = False        # lowering through symbolic parameters costs 10 s and more without the cache
     return {'r': 'amap', 'p': p}
 
